@@ -9,7 +9,9 @@ at the end).  The history is interpreted against (real object, list model).
 import os
 import sys
 import math
+import array
 import pickle
+from collections import deque
 from fractions import Fraction
 from hypothesis import strategies as st
 from vlib.core import Clause, Enumerated, Violation
@@ -20,17 +22,22 @@ from audiolazy import lazy_itertools as lit
 
 ID = "C03"
 RULE = ("cases = histories (initial pool of 1-3 finite / generator-backed / periodic / "
-        "constant / bounded-endless streams or thubs, then <=12 (quick) / <=40 (thorough) "
+        "constant / bounded-endless streams or thubs - also built from a str, bytes, bytearray, array, range, dict, "
+        "dict view, deque, frozenset or a plain re-iterable object; items include 0.0, -0.0, nan and periods of "
+        "items that are equal without being the same (signed zeros, 1 / True / 1.0) - then <=12 (quick) / <=40 (thorough) "
         "steps take peek skip limit append map filter copy tee thub use next for list "
-        "(counts: None, ints, floats incl. halves and floats 1-3 ulps from a half / an integer, +-inf, nan), "
+        "(counts: None, ints, floats incl. halves and floats 1-3 ulps from a half / an integer, +-inf, nan, ints and "
+        "floats at and beyond sys.maxsize), "
         "then a generated drain schedule) drawn by Hypothesis; long histories (the same 1-2 in-place stages, "
         "with or without a small read in between, repeated 2600-4000 (thorough -6000) times on one stream that may "
         "have copies or be a thub use, then read); every list returned by take/peek is written to in place by the "
         "caller right after it was compared (later results must not show it); thubs also start out advanced by the "
         "documented Stream.take(hub, n); plus an exhaustive grid of "
-        "(source kind, length, [filter/map stage,] consumed prefix, method, count); oracle = immutable list "
+        "(source kind, length, [filter/map stage,] consumed prefix, method, count); plus every history of <= 3 steps "
+        "(4 around reads) from 20 single steps on one stream object with no peek of the harness in between; oracle = immutable list "
         "model (finite prefix + optional cycle) evaluated step by step: every return "
-        "value, every exception, and the next <=8 items of every live object; "
+        "value, every exception, and the next <=8 items of every live object, items compared exactly (type, sign of "
+        "zero, nan for nan); "
         "non-trivial = a consuming step on an object that has live copies / tee siblings "
         "/ unused hub uses, or a count beyond the remaining length, or an (n+1)-th hub "
         "use; distinct = distinct case hash")
@@ -38,7 +45,9 @@ ASSUMPTIONS = [
   "map/filter functions are pure and total (chosen by name from FUNCS / PREDS)",
   "filter is applied to an endless stream only when some element of its cycle passes",
   "skip/limit counts are ints or floats that are not exact halves (rounding mode of halves is unspecified), the representable neighbours of halves included; take/peek floats include exact halves (documented by rint: nearest integer, half away from zero) and their neighbours; expected counts are computed on the exact rational value of the float",
-  "take/peek(inf) and list() only on streams whose model is finite",
+  "take/peek(inf) and list() only on streams whose model is finite; the same for take/peek/skip counts of 10**9 and more (no read of an endless stream is asked to go that far); limit(10**9 or more) leaves an endless model as it is",
+  "an item is 'the same' when it is the identical object or has the same type and value, floats with the same sign of zero, nan matching only nan, tuples item by item",
+  "a str / bytes / dict / range / ... is an iterable like any other: Stream(x), thub(x, n) and append(x) go through its items (collections.abc.Iterable, as the anchored code tests)",
   "a stream handed to append/tee/thub/Stream() is dead afterwards (documented) and is not used again",
   "'use' of a thub = anything that calls iter() on it: Stream(hub), iter(hub), tee(hub), thub(hub), append(hub), hub.skip/limit/append/map/filter; hub.peek/hub.copy use none but need one to be left",
   "skip/limit/append/map/filter on a Stream are in-place (return self), as the anchored code documents",
@@ -86,6 +95,14 @@ def _cap_memory(extra=640 << 20):
 
 
 _cap_memory()
+
+# Counts around and beyond sys.maxsize (ints and finite floats; the list model slices with them
+# without any error).  Before proposed-fixes/C03-count-beyond-maxsize.diff the code raised
+# ValueError for those above it (itertools.islice refuses such a bound).
+HUGE = [sys.maxsize + 1, 2 ** 63 + 5, 2 ** 64, 10 ** 30, 1e19, float(2 ** 63), 1e30, 1.7e308,
+        sys.maxsize, sys.maxsize - 1]
+FAR = 10 ** 9      # no read of an endless stream is asked to go this far
+SITE_HUGE = "count beyond sys.maxsize"
 
 INF = float("inf")
 K_INV = 8        # items compared per live object
@@ -193,10 +210,60 @@ class M(object):
     return "M(%r%s)" % (self.p, "" if self.c is None else " + cycle %r" % (self.c,))
 
 
+def same_item(x, y):
+  """The very item: identical, or equal with equal types (True != 1, 2 != 2.0),
+  floats also with the same sign of zero (0.0 != -0.0) and nan only for nan
+  (a nan computed twice by a mapped function is two objects); tuples item by
+  item under the same rule."""
+  if x is y:
+    return True
+  if type(x) is not type(y):
+    return False
+  if isinstance(x, float):
+    if x != x or y != y:
+      return x != x and y != y
+    return x == y and math.copysign(1., x) == math.copysign(1., y)
+  if isinstance(x, tuple):
+    return len(x) == len(y) and all(same_item(u, v) for u, v in zip(x, y))
+  return x == y
+
+
 def same(a, b):
-  """Item-wise identity-or-equality with equal types (True != 1, 2 != 2.0)."""
-  return len(a) == len(b) and all(
-    (x is y) or (type(x) is type(y) and x == y) for x, y in zip(a, b))
+  """Item-wise ``same_item``."""
+  return len(a) == len(b) and all(same_item(x, y) for x, y in zip(a, b))
+
+
+class _ReIter(object):
+  """An iterable that is neither an iterator nor a sequence (no __len__, no
+  __getitem__, no __next__): every iter() starts over."""
+  def __init__(self, data):
+    self.data = list(data)
+
+  def __iter__(self):
+    return iter(list(self.data))
+
+
+def _range_of(d):
+  return range(d[0], d[0] + len(d)) if d else range(0)
+
+
+# iterables other than list / tuple / generator / iterator that a stream or a thub
+# is built from or that are appended ("box" kinds); what the data has to look
+# like for each is in _BOXDATA below
+BOXES = {
+  "str": lambda d: "".join(d),
+  "bytes": lambda d: bytes(d),
+  "bytearray": lambda d: bytearray(d),
+  "range": _range_of,
+  "dict": lambda d: dict.fromkeys(d),
+  "keys": lambda d: dict.fromkeys(d).keys(),
+  "values": lambda d: dict(enumerate(d)).values(),
+  "deque": lambda d: deque(d),
+  "frozenset": lambda d: frozenset(d),      # at most one item: no order to speak of
+  "reiter": _ReIter,
+  "array": lambda d: array.array("i", d),
+}
+TEXT_BOXES = ("str", "bytes", "bytearray")
 
 
 def _split(x):
@@ -231,7 +298,7 @@ def ulps(x, k):
 
 def near_half(x):
   """A finite float that is not an exact half but lies within 4 ulps of one."""
-  if not isinstance(x, float) or x != x or x in (INF, -INF) or is_half(x):
+  if not isinstance(x, float) or x != x or x in (INF, -INF) or is_half(x) or abs(x) >= 2. ** 52:
     return False
   h = math.floor(x) + .5
   return ulps(h, -4) <= x <= ulps(h, 4)
@@ -239,7 +306,7 @@ def near_half(x):
 
 def near_whole(x):
   """A finite non-integral float within 4 ulps of an integer."""
-  if not isinstance(x, float) or x != x or x in (INF, -INF) or x == math.floor(x):
+  if not isinstance(x, float) or x != x or x in (INF, -INF) or x == math.floor(x) or abs(x) >= 2. ** 52:
     return False
   w = float(round(x))
   return ulps(w, -4) <= x <= ulps(w, 4)
@@ -279,6 +346,8 @@ def resolve_n(spec, m, for_cut=False):
     n = ulps(float(base) + (.5 if spec[3] else 0.), spec[4])
   elif spec[0] == "big":
     n = 1000 if m.finite() else 12
+  elif spec[0] == "huge":
+    n = HUGE[spec[1] % len(HUGE)]
   else:
     base = (len(m.p) if m.finite() else 3) + spec[1]
     n = base if spec[2] is None else float(base) + spec[2]
@@ -308,6 +377,9 @@ class E(object):
     self.deepskip = False   # >= 1000 of them are skip stages
     self.nskip = 0
     self.lastpeek = None    # hub: the last peek request (n, constructor), None after anything else
+    self.justread = False   # the last thing done to this object was a consuming read (take / iteration):
+                            # its iterator is the very object it was before that read
+    self.over = False       # ... and that read asked for more than was left (the end was seen)
 
 
 class Run(object):
@@ -374,6 +446,25 @@ class Run(object):
     e.depth += 1
     if op == "skip":
       e.nskip += 1
+    if e.justread:
+      # nothing (no peek, no copy, no other stage) came between the read and this stage
+      self.labels.add("stage right after a consuming read")
+      self.labels.add("right after a read:" + op)
+      if e.over:
+        self.labels.add("stage on a stream read past its end")
+        if op == "append":
+          self.labels.add("append to a stream read past its end")
+          self.nontrivial = True
+    e.justread = e.over = False
+
+  def was_read(self, e, over):
+    """A consuming read (take / next / for / list) just ran on e."""
+    e.over = bool(over) or (e.justread and e.over)
+    e.justread = True
+
+  def touched(self, e):
+    """peek / copy / Stream(s): e's iterator was replaced or handed on."""
+    e.justread = e.over = False
 
   def reading(self, e):
     """A read that pulls items through e's stages."""
@@ -419,9 +510,23 @@ class Run(object):
       return None
     return self.add_stream(r, e.m.copy(), e.fam, hard=e.hard, parent=e)
 
+  def note_items(self, data, period=False):
+    """Labels for items that only an exact comparison tells apart."""
+    fl = [v for v in data if isinstance(v, float)]
+    if any(v == 0 and math.copysign(1., v) < 0 for v in fl):
+      self.labels.add("item:-0.0")
+    if any(v != v for v in fl):
+      self.labels.add("item:nan")
+    if period and len(data) >= 2 and all(v == data[0] for v in data) \
+        and not all(same_item(v, data[0]) for v in data):
+      self.labels.add("period of equal but different items")
+      if all(type(v) is type(data[0]) for v in data):
+        self.labels.add("period of signed zeros")
+
   # -- initial pool --------------------------------------------------------
   def init(self, spec):
     kind, data = spec[0], list(spec[1])
+    self.note_items(data)
     if kind == "list":
       return self.add_stream(Stream(list(data)), M(data), self.fam())
     if kind == "tuple":
@@ -435,6 +540,15 @@ class Run(object):
       return self.add_stream(Stream(data[:h], iter(data[h:])), M(data), self.fam())
     if kind == "src":       # finite counting source
       return self.add_stream(Stream(Src(data)), M(data), self.fam())
+    if kind.startswith("box:") or kind.startswith("box2:"):
+      # any other iterable: a str, bytes, a range, a dict, a view, a deque, ...
+      name = kind.split(":")[1]
+      self.labels.add("box source")
+      self.labels.add("box:" + name)
+      if kind.startswith("box2:"):      # chained constructor over two of them
+        h = len(data) // 2
+        return self.add_stream(Stream(BOXES[name](data[:h]), BOXES[name](data[h:])), M(data), self.fam())
+      return self.add_stream(Stream(BOXES[name](data)), M(data), self.fam())
     if kind in ("rep", "rep2"):   # a *finite* constant stream: itertools.repeat(value, times)
       import itertools
       vals = list(data[:1]) * spec[2]
@@ -443,6 +557,7 @@ class Run(object):
       return self.add_stream(real, M(vals), self.fam())
     if kind == "per":       # periodic constructor (>= 2 scalars)
       self.labels.add("periodic")
+      self.note_items(data, period=True)
       return self.add_stream(Stream(*data), M([], data), self.fam(), hard=True)
     if kind == "const":
       self.labels.add("periodic")
@@ -472,10 +587,18 @@ class Run(object):
         raw, m = (v for v in data), M(data)
       elif sub == "stream":
         raw, m = Stream(list(data)), M(data)
+      elif sub in BOXES:
+        raw, m = BOXES[sub](data), M(data)
+        self.labels.add("box source")
+        self.labels.add("hub of a box")
+        if sub in TEXT_BOXES:
+          self.labels.add("hub of text")
       else:
         self.labels.add("periodic")
         raw, m = Stream(*data), M([], data)
       h = thub(raw, n)
+      if not isinstance(h, Stream):
+        self.fail("thub(%r, %d) returned %r: not a thub" % (raw, n, h))
       ne = E("h", h, m, self.fam(), uses=n, hard=(sub == "per"))
       if kind.startswith("hubadv:"):
         # documented in StreamTeeHub.take: Stream.take(hub, n) on a hub nothing was
@@ -518,9 +641,13 @@ class Run(object):
           self.fail("%s() on an exhausted stream returned %r instead of raising StopIteration" % (op, r))
         self.labels.add("StopIteration")
       self.labels.add("n:None")
+      if op == "take":
+        self.was_read(e, not exp)
+      else:
+        self.touched(e)
       return
     c = take_count(n)
-    if c == INF and not m.finite():
+    if (c == INF or c >= FAR) and not m.finite():
       self.labels.add("skipped: inf on endless")
       return
     short = c != INF and c > m.remaining()
@@ -528,6 +655,9 @@ class Run(object):
       self.labels.add("short take")
       self.nontrivial = True
       self.site = "Stream.%s beyond the end" % op
+    if c != INF and c > sys.maxsize:
+      self.labels.add("n:beyond sys.maxsize")
+      self.site = SITE_HUGE
     exp = m.first(len(m.p) if c == INF else c)
     st_, r = self.real(e, "%s(%r)" % (op, n), lambda: getattr(e.obj, op)(n, **kw))
     self.site = None
@@ -557,6 +687,10 @@ class Run(object):
       self.labels.add("n:negative")
     elif c == m.remaining():
       self.labels.add("n:exactly the rest")
+    if op == "take":
+      self.was_read(e, short or c == INF)
+    else:
+      self.touched(e)
     if op == "take" and exp:
       self.consuming(e)
       m.drop(len(exp))
@@ -613,16 +747,26 @@ class Run(object):
     if op in ("skip", "limit"):
       n = resolve_n(arg, e.m, for_cut=True)
       c = cut_count(n)
+      if c >= FAR and op == "skip" and not e.m.finite():
+        self.labels.add("skipped: far skip on endless")      # the next read would never return
+        return
+      if c > sys.maxsize:
+        self.labels.add("cut:beyond sys.maxsize")
+        self.site = SITE_HUGE
       if e.kind == "h":
         r = self.use_hub(e, "hub.%s(%r)" % (op, n), lambda: getattr(e.obj, op)(n))
+        self.site = None
         if r is None:
           return
         e = self.add_stream(r, e.m.copy(), e.fam, hard=e.hard, parent=e)
       else:
         r = self.real(e, "%s(%r)" % (op, n), lambda: getattr(e.obj, op)(n))[1]
+        self.site = None
         if r is not e.obj:
           self.fail("%s(%r) did not return the stream itself" % (op, n))
       self.stage(e, op)
+      if c >= FAR and not e.m.finite():
+        return      # limit further than any read goes: the endless model stays as it is
       if c > e.m.remaining():
         self.labels.add("short " + op)
         self.nontrivial = True
@@ -690,6 +834,7 @@ class Run(object):
         r = self.real(e, "copy()", lambda: e.obj.copy())[1]
         if r is e.obj:
           self.fail("copy() returned the stream itself")
+        self.touched(e)
       self.add_stream(r, e.m.copy(), e.fam, pending=e.pending, hard=e.hard, parent=e)
       return
 
@@ -736,6 +881,7 @@ class Run(object):
       else:
         r = self.real(e, "Stream(s)", lambda: Stream(e.obj))[1]
         e.obj = r
+        self.touched(e)
       return
 
     # the remaining operations need a Stream
@@ -775,6 +921,7 @@ class Run(object):
                   % ("stopped" if stopped else "did not stop", len(exp), k))
       if stopped:
         self.labels.add("StopIteration")
+      self.was_read(e, stopped)
       if exp:
         self.consuming(e)
       e.m.drop(len(exp))
@@ -792,6 +939,7 @@ class Run(object):
       got = self.real(e, "%s(s)" % how, fn)[1]
       if not same(got, exp):
         self.fail("%s(s) -> %r, model says %r" % (how, got, exp))
+      self.was_read(e, True)
       if exp:
         self.consuming(e)
       e.m.drop(len(exp))
@@ -812,6 +960,10 @@ class Run(object):
       args, add = [list(spec[1]), iter(list(spec[2]))], M(list(spec[1]) + list(spec[2]))
     elif kind == "scalars":
       args, add = list(spec[1]), M([], spec[1])
+      self.note_items(list(spec[1]), period=True)
+    elif kind == "box":
+      args, add = [BOXES[spec[1]](list(spec[2]))], M(spec[2])
+      self.labels.add("box source")
     else:
       args, add = None, None
     self.labels.add("append:" + kind)
@@ -893,6 +1045,7 @@ class Run(object):
         self.fail("%s: a live %s shows %r next, model says %r"
                   % (when, "thub" if e.kind == "h" else "stream", got, exp))
       scribble(got)
+      self.touched(e)
 
   # -- final drain ---------------------------------------------------------
   def drain(self, sched):
@@ -1009,9 +1162,34 @@ def run_deep(case):
 # --------------------------------------------------------------------------
 # strategies
 # --------------------------------------------------------------------------
+NAN = float("nan")
 _scalar = st.one_of(st.integers(-9, 9), st.integers(-9, 9), st.none(), st.booleans(),
-                    st.sampled_from([.5, -1.5, 2.])
+                    st.sampled_from([.5, -1.5, 2., 0., -0., 1., NAN])
                     )
+# periods whose items are all equal under == without being the same item: signed
+# zeros, one number in several types
+_EQUALS = [[0., -0.], [-0., 0.], [0., -0., 0.], [-0., -0., 0.], [0, 0., False, -0.], [1, True, 1.],
+           [2, 2.], [0., 0, -0.], [True, 1]]
+_eqperiod = st.sampled_from(_EQUALS).flatmap(
+  lambda g: st.lists(st.sampled_from(g), min_size=2, max_size=4).filter(
+    lambda l: any(not same_item(v, l[0]) for v in l)))
+
+
+def _boxdata(n):
+  """(box name, items) pairs: the items are what iterating the box yields."""
+  ints = st.lists(st.integers(0, 9), max_size=n)
+  return st.one_of(
+    st.tuples(st.just("str"), st.lists(st.sampled_from("abc"), max_size=n)),
+    st.tuples(st.just("str"), st.lists(st.sampled_from("abc"), max_size=n)),
+    st.tuples(st.sampled_from(["bytes", "bytearray", "array"]), ints),
+    st.tuples(st.just("range"), st.tuples(st.integers(-3, 3), st.integers(0, n)).map(
+      lambda t: list(range(t[0], t[0] + t[1])))),
+    st.tuples(st.sampled_from(["dict", "keys"]),
+              st.lists(st.one_of(st.integers(-9, 9), st.text("ab", max_size=2), st.none()),
+                       max_size=n, unique=True)),
+    st.tuples(st.sampled_from(["values", "deque", "reiter"]), st.lists(_item, max_size=n)),
+    st.tuples(st.just("frozenset"), st.lists(st.integers(-9, 9), max_size=1)),
+  )
 _item = st.one_of(st.integers(-9, 9), st.integers(-9, 9), st.integers(-9, 9), _scalar,
                   st.text("ab", max_size=2),
                   st.tuples(st.integers(0, 3)), st.just(()))
@@ -1031,14 +1209,18 @@ def _inits(tier, hubs=True):
                   st.lists(_item, max_size=n))
   rng = st.tuples(st.sampled_from(["list", "gen"]),
                   st.integers(0, n).map(lambda k: list(range(k))))
-  per = st.tuples(st.just("per"), st.lists(_scalar, min_size=2, max_size=4))
+  per = st.tuples(st.just("per"), st.one_of(st.lists(_scalar, min_size=2, max_size=4),
+                                            st.lists(_scalar, min_size=2, max_size=4), _eqperiod))
+  box = st.tuples(st.sampled_from(["box:", "box:", "box2:"]), _boxdata(n)).map(
+    lambda t: (t[0] + t[1][0], t[1][1]))
   const = st.tuples(st.just("const"), st.lists(_scalar, min_size=1, max_size=1))
   endless = st.tuples(st.just("endless"), st.lists(_item, min_size=1, max_size=4))
   teed = st.tuples(st.sampled_from(["tee:gen", "tee:iter"]), st.lists(_item, max_size=n),
                    st.integers(1, 3))
   rep = st.tuples(st.sampled_from(["rep", "rep2"]), st.lists(_scalar, min_size=1, max_size=1), st.integers(0, n))
-  opts = [fin, fin, fin, rng, per, const, endless, teed, rep]
+  opts = [fin, fin, fin, rng, per, const, endless, teed, rep, box]
   if hubs:
+    opts.append(st.tuples(_boxdata(n), st.integers(0, 3)).map(lambda t: ("hub:" + t[0][0], t[0][1], t[1])))
     opts.append(st.tuples(st.sampled_from(["hub:list", "hub:gen", "hub:stream"]),
                           st.lists(_item, max_size=n), st.integers(0, 3)))
     opts.append(st.tuples(st.just("hub:per"), st.lists(_scalar, min_size=2, max_size=3),
@@ -1067,6 +1249,7 @@ _nspec = st.one_of(
   st.sampled_from([2.5, 3.4, .4, .5, 1.5, -1.5, -0., 7., 1e-9, INF, INF, -INF,
                    float("nan")]).map(lambda x: ("v", x)),
   st.just(("big",)),
+  st.tuples(st.just("huge"), st.integers(0, len(HUGE) - 1)),
 )
 _cutspec = st.one_of(
   _ulpspec,
@@ -1076,6 +1259,7 @@ _cutspec = st.one_of(
   st.tuples(st.just("rel"), st.integers(-1, 3), st.sampled_from([0., .25, -.25, .4, -.4])),
   st.sampled_from([2.3, 3.7, -.4, .4, 0., -0., 5.]).map(lambda x: ("v", x)),
   st.just(("big",)),
+  st.tuples(st.just("huge"), st.integers(0, len(HUGE) - 1)),
 )
 _idx = st.integers(0, 11)
 _appendspec = st.one_of(
@@ -1083,6 +1267,8 @@ _appendspec = st.one_of(
   st.tuples(st.just("gen"), st.lists(_item, max_size=3)),
   st.tuples(st.just("lists"), st.lists(_item, max_size=2), st.lists(_item, max_size=2)),
   st.tuples(st.just("scalars"), st.lists(_scalar, min_size=1, max_size=3)),
+  st.tuples(st.just("scalars"), _eqperiod),
+  _boxdata(3).map(lambda t: ("box", t[0], t[1])),
   st.tuples(st.just("pool"), _idx),
   st.tuples(st.just("pool"), _idx),
   st.just(("self",)),
@@ -1168,7 +1354,8 @@ def strat_hub(tier):
     st.tuples(st.sampled_from(["hub:list", "hub:gen", "hub:stream"]),
               st.lists(_item, max_size=6), st.integers(0, 3)),
     st.tuples(st.just("hub:per"), st.lists(_scalar, min_size=2, max_size=3), st.integers(0, 3)))
-  hubinit = st.one_of(hubinit, hubinit, _hubadv(6))
+  boxhub = st.tuples(_boxdata(6), st.integers(0, 3)).map(lambda t: ("hub:" + t[0][0], t[0][1], t[1]))
+  hubinit = st.one_of(hubinit, hubinit, _hubadv(6), boxhub)
   return st.fixed_dictionaries(dict(
     init=st.tuples(hubinit, st.lists(_inits(tier), max_size=1)).map(lambda t: [t[0]] + t[1]),
     steps=_steps(W_HUB, maxlen),
@@ -1251,8 +1438,8 @@ def grid(tier, shard, nshards):
   near = [ulps(j + .5, k) for j in range(0, 4) for k in (-2, -1, 1, 2)]
   near += [ulps(float(j), k) for j in range(0, 4) for k in (-1, 1)]
   near += [ulps(-.5, 1), ulps(-.5, -1), ulps(1000.5, -1), ulps(1000.5, 1)]
-  counts = counts + near
-  cuts = cuts + near
+  counts = counts + near + HUGE
+  cuts = cuts + near + HUGE
   i = 0
   for kind in ("list", "gen", "per", "endless", "hub:list"):
     for n in lens:
@@ -1292,22 +1479,85 @@ def grid(tier, shard, nshards):
                          drain=[])
 
 
+def _alphabet(t):
+  """Single steps on pool entry t: consuming reads (short of, up to and past the end),
+  the reads that replace the iterator (peek, copy), every in-place stage."""
+  tk = lambda spec: ("take", t, (spec, "list"))
+  return [
+    ("take rest", tk(("rel", 0, None))), ("take rest+1", tk(("rel", 1, None))), ("take 1", tk(("v", 1))),
+    ("take()", tk(("v", None))), ("take inf", tk(("v", INF))), ("for 2", ("for", t, 2)),
+    ("list", ("list", t, "list")),
+    ("peek 2", ("peek", t, (("v", 2), "list"))), ("copy", ("copy", t, None)),
+    ("append [7]", ("append", t, ("list", [7]))), ("append gen", ("append", t, ("gen", [8, 9]))),
+    ("append []", ("append", t, ("list", []))), ("append 5 6", ("append", t, ("scalars", [5, 6]))),
+    ("limit 2", ("limit", t, ("v", 2))), ("limit 3", ("limit", t, ("v", 3))), ("limit big", ("limit", t, ("big",))),
+    ("skip 1", ("skip", t, ("v", 1))), ("skip 0", ("skip", t, ("v", 0))),
+    ("map inc", ("map", t, "inc")), ("filter even", ("filter", t, "even")),
+  ]
+
+
+_READS = ("take rest", "take rest+1", "take 1", "take()", "take inf", "for 2", "list")
+
+
+def lifecycle(tier, shard, nshards):
+  """Every history of up to 3 steps (and every 4-step history stage-read-stage-read /
+  stage-stage-read-stage / ...: see below) on ONE stream object, with no invariant peek in
+  between: the object's iterator stays the very object the previous step left."""
+  sources = [
+    (("list", [10, 11, 12, 13]), [], 0),
+    (("gen", [10, 11, 12]), [], 0),
+    (("per", [1, 2, 3]), [], 0),
+    (("list", [10, 11, 12]), [("copy", 0, None)], 1),                       # a copy
+    (("gen", [10, 11, 12, 13]), [("hub", 0, 2), ("use", 0, "Stream")], 1),   # one use of a thub
+    (("endless", [4, 5]), [], 0),
+  ]
+  if tier != "quick":
+    sources += [(("list", []), [], 0), (("iter", [10, 11, 12, 13, 14, 15]), [("tee", 0, 2)], 1),
+                (("box:str", ["a", "b", "c"]), [], 0)]
+  i = 0
+  for spec, pre, t in sources:
+    abc = _alphabet(t)
+    steps1 = [[b] for _, b in abc]
+    steps2 = [[a, b] for _, a in abc for _, b in abc]
+    steps3 = [[a, b, c] for _, a in abc for _, b in abc for _, c in abc]
+    # 4 steps: two reads and two stages in any order (quick); anything around a read (thorough)
+    rd = [b for nm, b in abc if nm in _READS]
+    stg = [b for nm, b in abc if nm not in _READS and nm not in ("peek 2", "copy")]
+    every = [b for _, b in abc]
+    if tier == "quick":
+      shapes = [(stg, rd, stg, rd), (stg, stg, rd, stg), (rd, stg, rd, stg)] if spec[0] in ("list", "per") and not pre else []
+    else:
+      shapes = [(every, stg, rd, stg), (stg, rd, stg, every), (stg, rd, rd, stg), (rd, stg, rd, stg)]
+    steps4 = ([a, b, c, d] for sh in shapes for a in sh[0] for b in sh[1] for c in sh[2] for d in sh[3])
+    for group in (steps1, steps2, steps3, steps4):
+      for steps in group:
+        i += 1
+        if i % nshards != shard:
+          continue
+        yield dict(init=[spec], steps=[list(x) for x in pre] + steps, inv="end", drain=[])
+
+
 CLAUSES = [
   Clause("history", strat_history, run_history, quick=4000, thorough=36000,
          floors={"short take": .12, "interleaved copies": .12, "hub exhausted": .05,
                  "periodic": .1, "hub use": .05, "n:None": .05, "short skip": .02,
                  "short limit": .015, "StopIteration": .1,
                  "n:next to a half, decisive": .02, "n:next to an integer": .01,
-                 "cut:next to a half": .03, "hub peek repeated alike": .05},
+                 "cut:next to a half": .03, "hub peek repeated alike": .05,
+                 "box source": .1, "hub of text": .015, "item:-0.0": .03, "item:nan": .02,
+                 "period of equal but different items": .015, "period of signed zeros": .006,
+                 "stage right after a consuming read": .01,
+                 "n:beyond sys.maxsize": .006, "cut:beyond sys.maxsize": .008},
          doc="general histories over a pool of streams and thubs vs the list model"),
   Clause("copies", strat_copies, run_history, quick=2000, thorough=16000,
          floors={"interleaved copies": .2, "tee": .1, "thub": .1,
-                 "n:next to a half, decisive": .02},
+                 "n:next to a half, decisive": .02, "period of signed zeros": .002, "box source": .05},
          doc="one source, copies/tee/thub made early, consumption interleaved between them"),
   Clause("hub", strat_hub, run_history, quick=1500, thorough=10000,
          floors={"hub exhausted": .3, "hub use": .2, "hub exhausted inside the history": .1,
                  "hub peek": .02, "hub copy": .03, "n:next to a half, decisive": .02,
-                 "hub peek repeated alike": .08, "hub advanced for every use": .08},
+                 "hub peek repeated alike": .08, "hub advanced for every use": .08,
+                 "hub of a box": .06, "hub of text": .02},
          doc="thub histories: exactly n uses of every kind, peek/copy use none, IndexError after"),
   Clause("deep", strat_deep, run_deep, quick=160, thorough=1200,
          floors={"read through %d+ stages" % DEEP: .5, "deep:map": .12, "deep:filter": .04,
@@ -1317,5 +1567,12 @@ CLAUSES = [
              "with or without a small read in between, stacked 2600..4000 (thorough ..6000) times on one stream "
              "that may have copies or be one use of a thub, then read"),
   Enumerated("counts", grid, run_history, shards={"quick": 4, "thorough": 8},
+             floors={"n:beyond sys.maxsize": .01, "cut:beyond sys.maxsize": .015},
              doc="every (source kind, length, consumed prefix, take/peek/skip/limit, count) in a small box, plain and behind a filter/map stage"),
+  Enumerated("lifecycle", lifecycle, run_history, shards={"quick": 6, "thorough": 12},
+             floors={"stage right after a consuming read": .2, "append to a stream read past its end": .02,
+                     "stage on a stream read past its end": .05},
+             doc="every history of <= 3 steps (4 around reads) on one stream object - a fresh stream, a copy, a thub use - "
+                 "from 20 single steps (reads short of / up to / past the end, peek, copy, every in-place stage), "
+                 "compared only at the end: no peek of the harness comes between a read and the next stage"),
 ]
